@@ -33,6 +33,7 @@
 //!   `Drop` impl returns, so a receiver woken from `Drop for Sender` would
 //!   still observe a strong count of 2 and park again, losing the wakeup
 //!   forever. An explicit flag set *before* notifying has no such race.
+#![cfg_attr(scylla_verif, allow(unfulfilled_lint_expectations))] // hook H-MERGE uses `try_recv`
 
 use std::sync::Arc;
 use std::sync::Mutex;
@@ -106,12 +107,16 @@ impl<T> Sender<T> {
         if self.shared.receiver_dropped.load(Ordering::Acquire) {
             return Err(SendError);
         }
+        #[cfg(scylla_verif)]
+        crate::verif::merge::point("modify:after-receiver-check");
 
         let has_value = {
             let mut slot = self.shared.slot.lock().unwrap();
             f(&mut slot);
             slot.is_some()
         };
+        #[cfg(scylla_verif)]
+        crate::verif::merge::point("modify:after-unlock");
 
         if has_value {
             self.shared.notify.notify_one();
@@ -125,6 +130,8 @@ impl<T> Drop for Sender<T> {
         // The flag must be set before notifying, so that a receiver woken by
         // this notification is guaranteed to observe it.
         self.shared.sender_dropped.store(true, Ordering::Release);
+        #[cfg(scylla_verif)]
+        crate::verif::merge::point("drop-sender:after-flag");
         self.shared.notify.notify_one();
     }
 }
@@ -155,20 +162,30 @@ impl<T> Receiver<T> {
 
         loop {
             let mut notified = std::pin::pin!(shared.notify.notified());
+            #[cfg(scylla_verif)]
+            crate::verif::merge::point("recv:before-enable");
             // Register in the wait list *before* looking at the slot, so that a
             // concurrent `modify` either is seen below or wakes us up.
             notified.as_mut().enable();
+            #[cfg(scylla_verif)]
+            crate::verif::merge::point("recv:after-enable");
 
             if let Some(value) = take() {
                 return Some(value);
             }
+            #[cfg(scylla_verif)]
+            crate::verif::merge::point("recv:after-first-take");
 
             if shared.sender_dropped.load(Ordering::Acquire) {
                 // The sender fills the slot before setting the flag, but we
                 // read the slot before the flag - so re-check it once more to
                 // avoid losing that last update.
+                #[cfg(scylla_verif)]
+                crate::verif::merge::point("recv:after-flag-load");
                 return take();
             }
+            #[cfg(scylla_verif)]
+            crate::verif::merge::point("recv:before-await");
 
             notified.as_mut().await;
         }
@@ -178,6 +195,14 @@ impl<T> Receiver<T> {
 impl<T> Drop for Receiver<T> {
     fn drop(&mut self) {
         self.shared.receiver_dropped.store(true, Ordering::Release);
+    }
+}
+
+#[cfg(scylla_verif)]
+impl<T> Receiver<T> {
+    /// Hook H-MERGE: `try_recv` for the external harness (forwards to the production method).
+    pub(crate) fn try_recv_verif(&mut self) -> Option<T> {
+        self.try_recv()
     }
 }
 
